@@ -61,5 +61,9 @@ class SRLB(TLV):
                     data = struct.unpack('!I', value[7:7 + length])[0]
                     value = value[7 + length:]
                     tmp['sid'] = data
+                else:
+                    # neither a 3-octet label nor a 4-octet SID: skip the sub-TLV
+                    # (always advance, otherwise this loop never ends)
+                    value = value[7 + length:]
                 results.append(tmp)
         return cls(value=results)
